@@ -527,6 +527,19 @@ def _info_sets(out, specs, r):
                 out.fail("stream-sets:seed-list-of-another-stream-rewritten",
                          {"stream": "crn-twin", "now": list(ia.get_seed_values("crn-twin"))[:5]})
                 return
+            # the generator registered under a name is replaced by another object (e.g. between two replications):
+            # the seed list is configured for the NAME and still applies
+            if type(r) is int and 0 <= r < 64:
+                upd_a = _seeded(ia.get_seeds())
+                ia.add_stream(nm0, MersenneTwister(specs[0][1] + 17))
+                exc = _call(upd_a.update_seed, nm0, ia.get_stream(nm0), r)
+                got_seed = ia.get_stream(nm0).seed()
+                exc2 = _call(_seeded(ia.get_seeds()).update_seed, nm0, ia.get_stream(nm0), r)
+                if exc is not None or exc2 is not None or got_seed != 900 + r or ia.get_stream(nm0).seed() != 900 + r:
+                    out.fail("stream-sets:seed-list-lost-when-the-generator-was-replaced",
+                             {"stream": nm0, "r": r, "exc": [exc, exc2], "seeds": [got_seed, ia.get_stream(nm0).seed()],
+                              "want": 900 + r})
+                    return
             ib = StreamSeedInformation()
             ib.add_stream(nm0, MersenneTwister(specs[0][1]))
             try:
